@@ -4,8 +4,10 @@
 (* validated against SM83!Exec. Events of one scenario are independent: the  *)
 (* driver sets the registers before each of them.                            *)
 (*                                                                           *)
-(*  [1, pre, [op,b1,b2], bus, post, n, run]                                  *)
-(*       run: 1 halted + 2 stopped + 4 halt bug armed, after the unit          *)
+(*  [1, pre, [op,b1,b2], bus, post, n, run, key]                             *)
+(*       run: 1 halted + 2 stopped + 4 halt bug armed, after the unit;         *)
+(*       key: a key event (CPU.OnInput) arrived after that machine cycle of    *)
+(*       the unit (-1 none) - it changes nothing, so the spec ignores it       *)
 (*       pre/post: [a,f,b,c,d,e,h,l,sp,pc]; bus: [[cycle, rw, addr, val]..]  *)
 (*       as the CPU performed them through the mapper (reads carry the value *)
 (*       the real decoder returned); n: machine cycles to the next boundary. *)
